@@ -322,13 +322,18 @@ def restore_mesh(obj, how, pick=0, dup_field=False):
     return MeshFields(mesh, pd, {n: [per[ct] for ct in cts] for n, per in cd.items()})
 
 
-def twin_sharing(obj):
-    """another MeshFields / Mesh object built from the very arrays of `obj` (source and reference share everything)"""
+def twin_sharing(obj, other_shape=None):
+    """another MeshFields / Mesh object built from the very arrays of `obj` (source and reference share everything);
+    other_shape: name of a scalar point field that the twin stores flat (n,) if `obj` stores it as a column (n, 1) and
+    vice versa (its own copy of the values)"""
     from fieldcompare.mesh import Mesh, MeshFields
     from fieldcompare.mesh._mesh_fields import remove_cell_type_suffix
     dom = obj.domain
     cts = list(dom.cell_types)
     pd = {f.name: f.values for f in obj.point_fields}
+    if other_shape in pd:
+        v = np.asarray(pd[other_shape])
+        pd[other_shape] = v.reshape(-1).copy() if v.ndim == 2 else v.reshape(-1, 1).copy()
     cd = {}
     for f, ct in obj.cell_fields_types:
         cd.setdefault(remove_cell_type_suffix(ct, f.name), {})[ct] = f.values
@@ -542,7 +547,16 @@ def gen_meshx_case(rng, api, storage=None):
         f = rng.choice(fl)
         special = rng.choice(["nan", "inf", "zero"])
         f["v"][rng.randrange(len(f["v"]))] = {"nan": float("nan"), "inf": float("inf"), "zero": 0.0}[special]
+    column = rng.random() < 0.35
+    if column:
+        # a scalar field stored as a column (n, 1) on one side and flat (n,) on the other (the predicates' shape exemption)
+        a["pf"].append({"name": "q1", "dt": "f64", "tail": [1], "v": [2.5 + 0.25 * i for i in range(len(a["points"]))]})
     b = meshgen.relabel(rng, a, extra_orphans=rng.choice([0, 0, 1]))
+    if column and rng.random() < 0.5:
+        a, b = b, a                      # either role
+    for f in b["pf"]:
+        if f["name"] == "q1":
+            f["tail"] = []
     if rng.random() < 0.4 and b["pf"]:
         f = rng.choice(b["pf"])
         if f["dt"] in ("f64", "f32"):
@@ -559,7 +573,7 @@ def gen_meshx_case(rng, api, storage=None):
         ops.append({"op": rng.choice(MESHX_OPS), "x": rng.randrange(1000), "y": rng.randrange(1000), "z": rng.randrange(1000),
                     "p": rng.randrange(len(PRED_SPECS)), "f": rng.randrange(4), "g": rng.randrange(4),
                     "same": rng.random() < 0.4})
-    return {"kind": "xhist", "family": "meshx", "inputs": [a, b, c], "piece": mode, "special": special,
+    return {"kind": "xhist", "family": "meshx", "inputs": [a, b, c], "piece": mode, "special": special, "column": column,
             "structured": (api.gen_structured_input(rng)["structured"] if rng.random() < 0.5 else None),
             "storage": storage or rng.choice(STORAGES), "pick": rng.randrange(4), "style": mt["style"], "ops": ops}
 
@@ -575,7 +589,8 @@ def exec_meshx(case, root, api):
     ev, cache, preds = Evals(), {}, Preds()
     how = case["storage"]
     tags = ["xhist-meshx", f"meshx-storage-{how}", f"meshx-style-{case['style']}"] + \
-           ([f"meshx-special-{case['special']}"] if case.get("special") else [])
+           ([f"meshx-special-{case['special']}"] if case.get("special") else []) + \
+           (["meshx-column-vs-flat"] if case.get("column") else [])
     pool = []          # [object, comparable?]
 
     def add(label, obj, comparable=True):
@@ -591,6 +606,10 @@ def exec_meshx(case, root, api):
                                                            pick=case["pick"], dup_field=(how == "sharedfield"))
             add("ABC"[k], obj)
         add("A-twin", twin_sharing(pool[0][0]))          # source and reference built from the very same arrays
+        flat = None
+        if case.get("column"):
+            flat = len(pool)
+            add("A-other-shape", twin_sharing(pool[0][0], other_shape="q1"))     # equal domain, q1 as (n,) vs (n, 1)
         if case.get("structured"):
             # a structured / rectilinear / image grid object of the public API (points cached, cells computed on access)
             add("S", api.build_structured(case["structured"]))
@@ -611,7 +630,15 @@ def exec_meshx(case, root, api):
                 allowed = []
                 w.before()
                 try:
-                    if name == "cmp":
+                    if flat is not None and name in ("cmp", "fdc", "cmpsel") and step % 2 == 0:
+                        # directed: the pair with equal domains whose field q1 is stored (n, 1) on one side, (n,) on the
+                        # other — the predicates see the caller's arrays themselves (no sorted copies), in either order
+                        i, j = (0, flat) if op["same"] else (flat, 0)
+                        kind = "fdc" if name == "fdc" else "mfc"
+                        compare_ops(api, ev, cache, preds, kind, ("shape", kind, i, j, op["p"] if name == "cmpsel" else None),
+                                    pool[i][0], pool[j][0], pk=(op["p"] if name == "cmpsel" else None))
+                        tags.append("meshx-op-cmp-column-vs-flat")
+                    elif name == "cmp":
                         compare_ops(api, ev, cache, preds, "mfc", ("cmp", cx, cy), pool[cx][0], pool[cy][0])
                     elif name == "cmpself":
                         compare_ops(api, ev, cache, preds, "mfc", ("cmp", cx, cx), pool[cx][0], pool[cx][0])
